@@ -151,6 +151,7 @@ func checkC15(p *Prog, r *Report) {
 	r.rule("C15.G2", "postProcess re-arms its die arm after every processed item on every path and returns on die only when chPostProcessing is empty", 2)
 	r.rule("C15.G3", "the periodic update callback is re-submitted only on the not-closed arm", 1)
 	r.rule("C15.G4", "UDPSession.Close (no listener, owned conn) and Listener.Close (owned conn) close the transport", 2)
+	r.rule("C15.G10", "a session that was started is either handed to the caller or closed: in every function other than the listener's dispatcher that calls newUDPSession (Dial*, NewConn*), no path from the call reaches a return that does not return the session without closing it — its goroutines and its scheduled callback are already running and nobody else holds a reference", 1)
 	r.rule("C15.G9", "the first Close always releases what keeps goroutines alive: on every path of UDPSession.Close that is not the 'already closed' return, the dispatch on s.l is reached, its listener arm calls closeSession and its client arm reaches the ownConn test whose true arm calls conn.Close() — an early return before it (whatever error it reports) leaves the receive goroutine blocked in ReadFrom and the socket open for good", 1)
 	r.rule("C15.G8", "a session leaves the listener's table only by being closed: the functions that delete from Listener.sessions are called from UDPSession.Close alone, and a store into the table that can replace an existing session is preceded on every such path by Close of the session found — otherwise the replaced session's goroutine, timer task, queues and blocked readers stay behind for good (one per datagram)", 2)
 	r.rule("C15.G7", "a receive goroutine ends on every failed socket read (no path from err != nil back to the read): closing the transport terminates it whatever error the transport reports (= C13.W9)", 4)
@@ -177,6 +178,11 @@ func checkC15(p *Prog, r *Report) {
 		as, ok := bind.(*ast.AssignStmt)
 		if !ok || len(as.Lhs) != 1 {
 			if _, isRet := bind.(*ast.ReturnStmt); isRet && fi.Obj != nil && fi.Obj == get {
+				continue
+			}
+			if _, isRet := bind.(*ast.ReturnStmt); isRet {
+				// return segment{data: Get()[:size]} / return Get()[:n]: handed to the caller at birth, nothing else in this function refers to it
+				r.ok("C15.O1", fi.Name, p.Pos(s.Call), "Get() -> return", "returned at birth (single owner: the caller's binding)")
 				continue
 			}
 			r.undecided("C15.O1", fi.Name, p.Pos(s.Call), "Get() root", "the result of Get() is not bound by a simple assignment")
@@ -349,6 +355,7 @@ func checkC15(p *Prog, r *Report) {
 	checkCreatedSessionsOwned(p, r)
 	checkSessionsLeaveByClose(p, r, "C15.G8")
 	checkCloseReleases(p, r)
+	checkStartedSessionsReturned(p, r)
 	checkBoundedSends(p, r)
 }
 
@@ -1946,5 +1953,68 @@ func checkCloseReleases(p *Prog, r *Report) {
 		r.ok("C15.G9", fi.Name, p.Pos(fi.Node), construct, "every path of the first Close reaches closeSession (accepted session) or conn.Close() (owned socket)")
 	} else {
 		r.bad("C15.G9", fi.Name, p.Pos(fi.Node), construct, why+": the receive goroutine of a dialled session stays blocked in ReadFrom on a socket nobody can close any more (a second Close only reports ErrClosedPipe); an accepted session stays in the listener's table", wit)
+	}
+}
+
+// checkStartedSessionsReturned: C15.G10.
+func checkStartedSessionsReturned(p *Prog, r *Report) {
+	lp := p.FuncByName("(*Listener).packetInput")
+	closeM := p.Method("UDPSession", "Close")
+	n := 0
+	for _, s := range p.CallsTo(p.Func("newUDPSession")) {
+		fi := rootFuncInfo(s.Fn)
+		if fi == lp || s.Fn != fi {
+			continue
+		}
+		n++
+		construct := "session started in " + fi.Name
+		// returned directly
+		if _, isRet := p.parents[s.Call].(*ast.ReturnStmt); isRet {
+			r.ok("C15.G10", fi.Name, p.Pos(s.Call), construct, "returned to the caller")
+			continue
+		}
+		var sv *types.Var
+		if as, ok := p.parents[s.Call].(*ast.AssignStmt); ok && len(as.Lhs) == 1 {
+			sv = identVar(p, as.Lhs[0])
+		}
+		if sv == nil {
+			r.bad("C15.G10", fi.Name, p.Pos(s.Call), construct, "the started session is not bound to a local: it cannot be followed to a return or a Close", "")
+			continue
+		}
+		c := p.CFG(fi)
+		pt, _ := c.PointOf(s.Call)
+		res := c.FindPath(PathQuery{From: Point{pt.B, pt.I + 1}, IsTarget: func(nd ast.Node, _ Point) bool {
+			rs, isR := nd.(*ast.ReturnStmt)
+			if !isR {
+				return false
+			}
+			for _, e := range rs.Results {
+				if mentionsVars(p, e, map[*types.Var]bool{sv: true}) {
+					return false
+				}
+			}
+			return true
+		}, IsBarrier: func(nd ast.Node, _ Point) bool {
+			hit := false
+			inspectShallow(nd, func(x ast.Node) bool {
+				if call, ok := x.(*ast.CallExpr); ok && p.Callee(call) == closeM {
+					if sel, ok := ast.Unparen(call.Fun).(*ast.SelectorExpr); ok {
+						if id, ok := ast.Unparen(sel.X).(*ast.Ident); ok && p.Info.Uses[id] == types.Object(sv) {
+							hit = true
+						}
+					}
+				}
+				return true
+			})
+			return hit
+		}})
+		if res.Found {
+			r.bad("C15.G10", fi.Name, p.Pos(s.Call), construct, "a path returns without the session and without closing it: its postProcess and receive goroutines, its scheduled update callback and (for Dial) its socket stay behind, and no Close call can ever reach them", c.DescribePath(res.Path))
+		} else {
+			r.ok("C15.G10", fi.Name, p.Pos(s.Call), construct, "every return after the call returns the session (or the session is closed first)")
+		}
+	}
+	if n == 0 {
+		r.bad("C15.G10", "constructors", "-", "sessions started", "no public constructor calls newUDPSession", "")
 	}
 }
